@@ -57,7 +57,8 @@ def main():
             if "bindings.cpp" in open(patch).read():
                 rcb, outb = build()
                 rec["ext_rebuild_rc"] = rcb
-            rct, outt = sh([PY, "-m", "pytest", "-q", "-p", "no:cacheprovider", "--timeout=900", "--continue-on-collection-errors"], cwd=wt,
+            # the pinned baseline = the 116 tests of these two files (the other test modules do not import in a source checkout)
+            rct, outt = sh([PY, "-m", "pytest", "-q", "-p", "no:cacheprovider", "--timeout=900", "tests/test_backends.py", "tests/test_parser.py"], cwd=wt,
                            env=dict(os.environ, PYTHONWARNINGS="ignore"), timeout=1800)
             tail = [l for l in outt.strip().splitlines() if "passed" in l or "failed" in l]
             rec["tests_with_patch"] = tail[-1] if tail else outt[-200:]
